@@ -1,13 +1,61 @@
 CFG = {
     "id": "C10",
-    "level_text": "placeholder",
-    "level_note": "placeholder",
+    "level_text": "Proof over executable Gallina transcriptions of base/bcomparator/comparator.go, base/bslice/sort.go, "
+                  "zsortfunc.go (= zsortordered.go up to `less`, re-diffed mechanically every run) and the comparison helpers "
+                  "of bslice.go. Theorems for all inputs: every integer/string/bool comparator returns exactly the sign of the "
+                  "native order and is a total preorder (zero only for equal), ReverseComparator negates and keeps the laws, the "
+                  "float comparators return the native sign whenever |a-b| > tolerance and 0 whenever |a-b| is below a "
+                  "representable bound under the tolerance (for any monotone, odd rounding that fixes representables); "
+                  "BinarySearch(Func) = (lowest insertion position, found) on sorted input without midpoint overflow below 2^63; "
+                  "IsSorted(Func), Compare(Func), Equal(Func), Index, Contains equal their definitions; pdqsort and the stable sort "
+                  "return a Permutation of the input for every input and every less (every write is an in-range swap); "
+                  "insertionSort and heapSort (siftDown invariant) sort their range, touch nothing else and never index out of "
+                  "range for every strict weak order; partition and partitionEqual satisfy their post-conditions (left part < pivot "
+                  "<= right part, resp. <= pivot < right part, pivot in place, nothing outside [a,b) touched, no index panic) for "
+                  "any less; the output checkers sorted_perm_b and stable_sorted_b are proved to decide "
+                  "Sorted /\\ Permutation and stability. PARTIAL: sortedness of the full pdqsort composition and of the stable sort "
+                  "(insertion blocks + symMerge + rotate) is not a theorem; it is decided per run by the verified checkers on the "
+                  "real outputs. The transcriptions are tied to the code on every run: ~5 000 calls, the sorts replayed through the "
+                  "Coq model with the sequence of less(x, y) calls compared (count and rolling hash), 14 input generators plus "
+                  "McIlroy's anti-quicksort adversary run against the real SortFunc (the evidence lists the model branches hit, "
+                  "incl. the heapsort fallback, breakPatterns, partialInsertionSort, partitionEqual, ninther, symMerge rotation).",
+    "level_note": "C10_sort_sorted_partial covers exactly the inputs pdqsort hands straight to insertion sort (n <= 12): sorted and "
+                  "no index panic. For n > 12 the proved pieces are: Permutation (C10_sort_perm, all paths), insertionSort "
+                  "(C10_insertion_sorted) and heapSort (C10_heapsort_sorted) as stand-alone range sorts, partition / partitionEqual "
+                  "post-conditions (C10_partition_post, C10_partition_equal_post). NOT proved: partialInsertionSort returning true only on a sorted range, "
+                  "choosePivot/breakPatterns/reverseRange index bounds, hence neither `pdqsort sorted` nor `pdqsort never panics` "
+                  "for n > 12; symMerge/rotate/stable (only Permutation). bcomparator.Sort, SortComparator, list.Sort and "
+                  "GetSortedValues delegate to the standard library's sort.Sort: no model, output checker only. Float comparators: "
+                  "NaN and infinities are outside the theorem and the generators; between tol/2 and tol the result depends on the "
+                  "rounding and either 0 or the sign is accepted by the model tie. The less-call sequence is compared through a "
+                  "31-bit rolling hash plus the call count, not element by element. Sort (zsortordered.go) cannot be given a "
+                  "recording less: its tie is the mechanical diff against zsortfunc.go plus equal outputs.",
     "harness": "c10",
     "theorems": [("C10.Props", [
         "C10_cmp_int", "C10_cmp_int_laws", "C10_cmp_string", "C10_cmp_string_laws", "C10_cmp_bool", "C10_cmp_reverse",
         "C10_cmp_float", "C10_binary_search", "C10_binary_search_func", "C10_is_sorted", "C10_compare_equal",
-        "C10_index_contains", "C10_sort_perm", "C10_insertion_sorted", "C10_sort_sorted_partial",
+        "C10_index_contains", "C10_sort_perm", "C10_insertion_sorted", "C10_heapsort_sorted", "C10_partition_post", "C10_partition_equal_post",
+        "C10_sort_sorted_partial",
         "C10_sorted_perm_checker", "C10_checker_orders", "C10_stable_checker"])],
-    "trusted": [], "modelled": [], "assumptions": [],
+    "trusted": [
+        "IEEE-754 subtraction of the float comparators = a rounding of the exact difference that is monotone, odd and the "
+        "identity on representable values; 0.0000001 denotes a representable positive double (premises of C10_cmp_float)",
+        "Go's ==, <, > on integers, bool and strings (bytewise lexicographic) and strings.Compare are the Z / byte-list "
+        "comparisons of C10/Model.v",
+        "standard library sort.Sort behind bcomparator.Sort / SortComparator / list.Sort / GetSortedValues (observed, judged by "
+        "the verified checker)",
+        "the harness's recording less, its rolling hash, the float -> (mantissa, exponent) decomposition (math.Frexp) and the "
+        "textual diff zsortordered.go vs zsortfunc.go",
+        "Coq.Sorting.Mergesort (used inside the permutation / stability checkers; its correctness lemmas are used, not assumed)",
+    ],
+    "modelled": [
+        "Go slices as lists with nth/swap; an out-of-range index sets a sticky flag (the model's panic)",
+        "xorshift / bits.Len / nextPowerOfTwo of breakPatterns as Z arithmetic mod 2^64",
+        "generic element type instantiated with int64 (tagged pairs encoded as key * 2^20 + index)",
+    ],
+    "assumptions": [
+        "less is a strict weak order for the sortedness theorems (asymmetric, negatively transitive); none for Permutation",
+        "slice length < 2^63 for BinarySearch's midpoint",
+    ],
     "widen_runs": 1,
 }
